@@ -339,6 +339,7 @@ def run_concurrent(case, chooser):
     mk_lock = shim.Lock
     labels = []
     last = {}
+    ret_read = {}
 
     def log(lab):
         wk = sched.cur()
@@ -380,9 +381,12 @@ def run_concurrent(case, chooser):
             v = self._eom
             wk = sched.cur()
             if wk is not None and sys._getframe(1).f_code.co_name == "_get_exec_once_mutex":
-                lab = "rdMutex:%s" % ("N" if v is None else locks.index(v))
-                if last.get(wk.idx) != lab:  # the `return self._exec_once_mutex` re-read
-                    log(lab)
+                if ret_read.pop(wk.idx, False) and v is not None:
+                    log("rdMutexRet:%d" % locks.index(v))  # `return self._exec_once_mutex`
+                else:
+                    log("rdMutex:%s" % ("N" if v is None else locks.index(v)))
+                    if v is not None:
+                        ret_read[wk.idx] = True
             return v
 
         def _s_eom(self, v):
